@@ -260,6 +260,18 @@ type rawKV struct {
 	label string
 	rc    *redis.Client
 	dmap  string
+	// alt: every duration is spelled in the OTHER unit the protocol offers (EX seconds instead of PX
+	// milliseconds and vice versa, EXAT / PXAT, DM.EXPIRE instead of DM.PEXPIRE, DM.LOCKLEASE instead
+	// of DM.PLOCKLEASE): the same request, the second spelling
+	alt bool
+}
+
+// RawClientAlt is RawClient with the alternative spelling of every duration.
+func (c *Cluster) RawClientAlt(to *Member, dmapName string) KV {
+	k := c.RawClient(to, dmapName).(*rawKV)
+	k.alt = true
+	k.label = "rawalt>" + to.Name
+	return k
 }
 
 // RawClient opens a plain RESP connection (go-redis over simnet) to one member.
@@ -278,6 +290,10 @@ func (k *rawKV) Label() string { return k.label }
 
 func (k *rawKV) Put(key string, val []byte, o PutOpt) Res {
 	cmd := protocol.NewPut(k.dmap, key, val)
+	if k.alt {
+		o.EX, o.PX = o.PX, o.EX
+		o.EXAT, o.PXAT = o.PXAT, o.EXAT
+	}
 	switch {
 	case o.EX != 0:
 		cmd.SetEX(o.EX.Seconds())
@@ -372,6 +388,9 @@ func (k *rawKV) GetPut(key string, val []byte) Res {
 
 func (k *rawKV) Expire(key string, d time.Duration) Res {
 	c := protocol.NewPExpire(k.dmap, key, d).Command(bg)
+	if k.alt {
+		c = protocol.NewExpire(k.dmap, key, d).Command(bg)
+	}
 	if err := k.rc.Process(bg, c); err != nil {
 		return Res{Err: ErrClass(err)}
 	}
@@ -380,8 +399,11 @@ func (k *rawKV) Expire(key string, d time.Duration) Res {
 
 func (k *rawKV) Lock(key string, timeout, deadline time.Duration) Res {
 	cmd := protocol.NewLock(k.dmap, key, deadline.Seconds())
-	if timeout != 0 {
+	if timeout != 0 && !k.alt {
 		cmd.SetPX(timeout.Milliseconds())
+	}
+	if timeout != 0 && k.alt {
+		cmd.SetEX(timeout.Seconds())
 	}
 	c := cmd.Command(bg)
 	if err := k.rc.Process(bg, c); err != nil {
@@ -405,6 +427,9 @@ func (k *rawKV) Unlock(key string, token []byte) Res {
 
 func (k *rawKV) Lease(key string, token []byte, d time.Duration) Res {
 	c := protocol.NewPLockLease(k.dmap, key, hex.EncodeToString(token), d.Milliseconds()).Command(bg)
+	if k.alt {
+		c = protocol.NewLockLease(k.dmap, key, hex.EncodeToString(token), d.Seconds()).Command(bg)
+	}
 	if err := k.rc.Process(bg, c); err != nil {
 		return Res{Err: ErrClass(err)}
 	}
@@ -468,6 +493,10 @@ func (c *Cluster) Entry(kind, dmapName, key string) (KV, error) {
 		return c.RawClient(owner, dmapName), nil
 	case "RN":
 		return c.RawClient(pick(0), dmapName), nil
+	case "RNx":
+		return c.RawClientAlt(pick(0), dmapName), nil
+	case "ROx":
+		return c.RawClientAlt(owner, dmapName), nil
 	case "PL":
 		cl, err := c.ClusterClient(pick(0))
 		if err != nil {
